@@ -74,6 +74,7 @@ class ColumnQuery(Query):
 
 class ColumnMatcher(ConstantScoreMatcher):
     def __init__(self, creader, condition):
+        ConstantScoreMatcher.__init__(self)
         self.creader = creader
         self.condition = condition
         self._i = 0
